@@ -40,11 +40,11 @@ def gen_case(r, shape):
         else:
             doc[r.choice(["big", "n"])] = r.choice(big if name == "has_factor" else small)
         leaf = leaf.replace(kwargs={"value": r.choice(small if name == "has_factor" else big)})
-    if name in ("in_range", "not_in_range") and pre is None and kind == "value" and r.pct() < 6:
+    if name in ("in_range", "not_in_range") and pre is None and kind == "value" and r.pct() < 15:
         # bounds up to 2**64 - 1 apart (membership of an INTEGER in a range is arithmetic, however wide it is);
         # the document holds integers only - for any other item the library walks the range
         big = [-(2**63), 2**63 - 1, -(2**63) + 1, 2**63 - 2, 0, 5, -(2**62)]  # (all within 64 bit)
-        lo, hi = sorted([r.choice(big), r.choice(big)])
+        lo, hi = sorted([r.choice(big), r.choice(big)]) if r.coin(40) else (r.choice(big[:1] + big[2:3] + big[6:]), r.choice(big[1:2] + big[3:4]))
         items = [r.choice([5, 0, -1, 2**63 - 1, -(2**63), 2**63 - 2, 2**62, True, 12]) for _ in range(r.between(1, 4))]
         return Leaf(kind, pre, name, (), {"lower": lo, "upper": hi}), (items if r.coin() else {f"k{i}": v for i, v in enumerate(items)})
     if kind == "value" and pre is None and name in G.VARPOS_KEYS + G.N_OF + G.ONE_OF_KW and r.pct() < 8:
@@ -218,8 +218,27 @@ def gen_twins(r):
     return leaf, doc
 
 
+def gen_named(r, kname):
+    """items_contain with ONE given expected key - enumerated over the parameter names found in the library's own callables
+    (read from the tree under test) and a few more: every keyword names an expected item, whatever it is called."""
+    v = G.scalar(r)
+    items = [{kname: v}, {kname: v, "other": 1}, {"other": 1}, {kname: G.scalar(r)}, 5, {}]
+    doc = [r.choice(items) for _ in range(r.between(1, 4))]
+    if r.coin():
+        doc = {f"k{i}": x for i, x in enumerate(doc)}
+    kw = {kname: v}
+    if r.coin(30):
+        kw["other"] = 1
+    return Leaf("value", None, "items_contain", (), kw), doc
+
+
+def named_factors():
+    return sorted(set(["trial_dict", "value", "datum", "kwargs", "args", "data", "key", "items", "shared_data", "source_data"] + build.param_names()))
+
+
 def tests(tier):
     return [
+        TestSpec("items-contain-names", gen_named, body, {"quick": 8, "thorough": 2000}, factors=named_factors(), tape=256),
         TestSpec(
             "leaf-filter",
             gen_case,
